@@ -42,11 +42,26 @@ def enter (g : Graph) (c : Cache) (l : Local) (n : Node) : Local :=
       { l with recOf := addRec l.recOf n seg, allRec := l.allRec ++ seg.filter (fun x => !l.allRec.contains x) }
     else { l with stack := ⟨n, children g n⟩ :: l.stack }
 
-/-- writes performed when `visit(n)` returns -/
+/-- writes performed when `visit(n)` returns, before the repair of row 96 (`stepEarly` in `RecSeq`) -/
 def exitWrites (l : Local) (n : Node) : List (Node × Bool) :=
   match l.recOf.find? (·.1 == n) with
   | some (_, ks) => ks.map (·, true)
   | none => if l.allRec.contains n then [] else [(n, false)]
+
+/-- the keys recorded for the head `k` (`_recursive.get(k, ())`) -/
+def recKeys (r : List (Node × List Node)) (k : Node) : List Node :=
+  match r.find? (·.1 == k) with | some (_, ks) => ks | none => []
+
+/-- `visit(n)` returns (repaired, row 96): a head whose cycle is part of a bigger one still being explored — an outer key of the
+    guard has recorded `n` — hands its keys to that outer head and writes nothing; otherwise it writes its keys.  A node that
+    is no head writes `False` unless it belongs to a recorded cycle. -/
+def exitFix (l : Local) (n : Node) (rest : List Frame) : Local :=
+  match l.recOf.find? (·.1 == n) with
+  | some (_, ks) =>
+    match (rest.map (·.node)).reverse.find? (fun k => (recKeys l.recOf k).contains n) with
+    | some k => { l with stack := rest, recOf := addRec (l.recOf.filter (·.1 != n)) k ks }
+    | none => { l with stack := rest, writes := ks.map (·, true) }
+  | none => { l with stack := rest, writes := if l.allRec.contains n then [] else [(n, false)] }
 
 /-- one atomic step of a thread: at most one shared access -/
 def step (g : Graph) (c : Cache) (l : Local) : Cache × Local :=
@@ -58,7 +73,7 @@ def step (g : Graph) (c : Cache) (l : Local) : Cache × Local :=
     | none =>
       match l.stack with
       | [] => (c, l)
-      | ⟨n, []⟩ :: rest => (c, { l with stack := rest, writes := exitWrites l n })
+      | ⟨n, []⟩ :: rest => (c, exitFix l n rest)
       | ⟨n, ch :: todo⟩ :: rest => (c, enter g c { l with stack := ⟨n, todo⟩ :: rest } ch)
 
 structure State where
